@@ -3,8 +3,10 @@
    The Go driver (harness/cmd/c07) feeds a concatenation of valid frames chunk by chunk through a real
    network connection (pkg/network) whose read filter runs the real protocol selection and the real
    ServerStreamConnection.Dispatch, and records after every chunk what reached the stream layer.
-     run{proto,cls,lens,units,auto}  a new connection; lens = message lengths in bytes, units = lengths of the
-                                     pieces the decoder drains (equal to lens except HTTP/2: preface + H2 frames)
+     run{proto,cls,lens,units,mode}  a new connection; lens = message lengths in bytes, units = lengths of the
+                                     pieces the decoder drains (equal to lens except HTTP/2: the 24-byte connection
+                                     preface is a unit of its own, then the H2 frames); mode = how the listener is
+                                     configured: fixed (one protocol, no matcher) | auto | list
      feed{n,got,buffered}            n more bytes were read; got = messages handed to NewStreamDetect/OnReceive
                                      since the previous event: i = which sent message it is (0 = none of them),
                                      ok = content identical to whole delivery; buffered = bytes left in the
@@ -16,11 +18,11 @@ EXTENDS Framing, VTrace
 VARIABLE units
 tvars == <<vars, units, l>>
 
-TraceInit == /\ l = 1 /\ frames = <<>> /\ units = <<>> /\ fed = 0 /\ cons = 0 /\ out = <<>> /\ pc = "read" /\ cuts = <<>>
+TraceInit == /\ l = 1 /\ frames = <<>> /\ units = <<>> /\ fed = 0 /\ cons = 0 /\ out = <<>> /\ pc = "read" /\ cuts = <<>> /\ pre = "done"
 
 TRun == /\ IsEvent("run")
         /\ frames' = Ev.lens /\ units' = Ev.units
-        /\ fed' = 0 /\ cons' = 0 /\ out' = <<>> /\ pc' = "read" /\ cuts' = <<>>
+        /\ fed' = 0 /\ cons' = 0 /\ out' = <<>> /\ pc' = "read" /\ cuts' = <<>> /\ pre' = pre
 
 Bogus == [start |-> 0 - 1, len |-> 0]
 
@@ -40,7 +42,7 @@ TFeed == /\ IsEvent("feed")
                /\ out' = [i \in 1..k1 |-> Range(frames, i)]      \* resynchronise: judge every chunk on its own
                /\ cons' = Off(units, Complete(units, f2))
          /\ pc' = "read" /\ cuts' = <<>>
-         /\ UNCHANGED <<frames, units>>
+         /\ UNCHANGED <<frames, units, pre>>
 
 TErr == /\ IsEvent("err")
         /\ Expect(FALSE, "error-" \o Ev.what)
